@@ -21,7 +21,7 @@ DATA_CARRIERS = ("nd_f8", "list_nan", "list_none", "list_mixed", "tuple_nan", "t
                  "ma_nan", "ma_adv", "ma_nomask", "ma_i8", "series", "series_shift", "series_none", "dask")
 TIME_CARRIERS = ("dt64ns", "dt64us", "dt64ms", "dt64s", "dt64m", "list_datetime", "list_timestamp", "list_dt64", "dtindex", "dtindex_utc",
                  "series_naive", "series_utc", "series_shift_naive", "epoch_int_list", "epoch_float_list", "epoch_int_nd", "epoch_float_nd",
-                 "tuple_datetime", "dtindex_freq")
+                 "tuple_datetime", "dtindex_freq", "dtindex_utc_us", "dtindex_utc_s", "series_utc_ms", "dtindex_naive_s")
 
 META = dict(
     rule="for each of the 11 tests (1-2 parameter sets): every logical series of length 0..N over {1, 3, missing} (range tests additionally over the float32 roundings of non-dyadic limits; rate_of_change "
@@ -145,6 +145,18 @@ def mk_time(secs, c):
             return pd.DatetimeIndex(base.astype("datetime64[ns]"), freq="infer")
         except Exception:  # noqa: BLE001
             return None
+    if c in ("dtindex_utc_us", "dtindex_utc_s", "series_utc_ms", "dtindex_naive_s"):
+        # pandas objects whose resolution is not nanoseconds (what to_datetime(..., unit="s", utc=True) or date_range give),
+        # and an aware index in another zone (same instants)
+        if frac and c in ("dtindex_utc_s", "dtindex_naive_s"):
+            return None
+        idx = pd.DatetimeIndex(base.astype("datetime64[ns]"))
+        if c == "dtindex_naive_s":
+            return idx.as_unit("s")
+        idx = idx.tz_localize("UTC")
+        unit = {"dtindex_utc_us": "us", "dtindex_utc_s": "s", "series_utc_ms": "ms"}[c]
+        idx = idx.as_unit(unit)
+        return pd.Series(idx) if c.startswith("series") else idx
     if c == "dtindex_utc":
         return pd.DatetimeIndex(base.astype("datetime64[ns]"), tz="UTC")
     if c == "series_naive":
@@ -186,7 +198,7 @@ def logical_inputs(name, x, step=None, gaps=None, months=False, jitter=False):
     else:
         d["inp"] = list(x)
     if "z" in spec["needs"]:
-        d["zinp"] = [5.0 if i % 2 == 0 else (MISS if n > 2 and i == 1 else 6.0) for i in range(n)]
+        d["zinp"] = [(0.0 if i % 4 == 0 else 5.0) if i % 2 == 0 else (MISS if n > 2 and i == 1 else 6.0) for i in range(n)]   # (surface rows at depth exactly 0)
     if "t" in spec["needs"]:
         if gaps is not None:
             d["tinp"] = alpha.times_from_gaps([gaps[i % len(gaps)] for i in range(max(n - 1, 0))])[:n] if n else []
